@@ -11,7 +11,7 @@ from vlib import common as C, e2e, sysrun as S
 from vlib.props import c01
 
 PROP = "C14"
-THEOREMS = ["GitAi.Sys.checkpoint_idempotent", "GitAi.Sys.granularity_checkpoints"]
+THEOREMS = ["GitAi.Sys.checkpoint_idempotent", "GitAi.Sys.granularity_checkpoints", "GitAi.Sys.granularity_split_agent_edit"]
 
 READONLY = [["status"], ["status", "--short"], ["log", "--oneline", "-3"], ["diff"], ["diff", "--cached", "--stat"],
             ["show", "--stat", "HEAD"], ["branch"], ["rev-parse", "HEAD"], ["ls-files"], ["log", "-1", "--format=%H"],
